@@ -224,7 +224,7 @@ func (self *BinaryConv) unmarshalSingular(ctx context.Context, resp http.Respons
 		message := (*fd).Message()
 		comma := false
 		start := p.Read
-		if l < 0 || start+l > len(p.Buf) {
+		if l < 0 || l > len(p.Buf)-start {
 			return wrapError(meta.ErrRead, "message length exceeds input", nil)
 		}
 		// unpacked lists and maps read on while the next tag carries their field number: bound them by this message
